@@ -396,6 +396,23 @@ func segMain(args []string) error {
 		prefix := args[3]
 		shards, _ := strconv.Atoi(args[4])
 		a := kindAlphabet(kind)
+		minLen := 1
+		if len(args) > 5 {
+			// restricted alphabet: only tuples whose class is listed; only sequences of exactly n
+			keep := map[string]bool{}
+			for _, c := range args[5:] {
+				keep[c] = true
+			}
+			var b alphabet
+			for i, k := range a.keys {
+				if keep[tupleFor(kind, a.reps[i][0]).C] {
+					b.keys = append(b.keys, k)
+					b.reps = append(b.reps, a.reps[i])
+				}
+			}
+			a = b
+			minLen = n
+		}
 		sw := newShardWriter(prefix, shards)
 		defer sw.close()
 		drv := make([]*segDriver, shards)
@@ -408,7 +425,7 @@ func segMain(args []string) error {
 			kinds = "lgw"
 		}
 		total := 0
-		for ln := 1; ln <= n; ln++ {
+		for ln := minLen; ln <= n; ln++ {
 			idx := make([]int, ln)
 			text := make([]rune, ln)
 			for {
